@@ -85,7 +85,11 @@ func c29World(cached bool) *World {
 	}
 	w := newWorldOn(fs, cfg)
 	w.noTrace = true
-	absnfs.VerifClockOff() // real time: a 1ns TTL is always expired
+	// real time: a 1ns TTL is always expired. (Until the fifth session every call switched the virtual clock back on,
+	// frozen at 0: "minimal TTL" entries then never expired, and a LOOKUP that stored its result after a concurrent
+	// RENAME's invalidation — legal with caches enabled — looked like a serialisation failure. DESIGN §11.7.)
+	w.realClock = true
+	absnfs.VerifClockOff()
 	return w
 }
 
@@ -132,7 +136,7 @@ func ownSig(o SOp, r SRes) string {
 // a private client per stream over a shared server (handles learnt by one stream are its own business)
 func streamClient(w *World) *World {
 	return &World{cfg: w.cfg, fs: w.fs, srv: w.srv, root: w.root, handles: map[string]uint64{"/": w.root}, inoAt: map[string]uint64{"/": 1},
-		step: 0, noTrace: true, keepStale: true}
+		step: 0, noTrace: true, keepStale: true, realClock: w.realClock}
 }
 
 func judgeC29(c c29Case, seed int64) []Violation {
@@ -506,6 +510,7 @@ func dirCacheStorm(r *Result, dur time.Duration) {
 	seedFS(fs, []string{"mkdir /d"})
 	w := newWorldOn(fs, SrvCfg{AttrTTL: 5 * time.Second, DirCache: true, Neg: true})
 	w.noTrace = true
+	w.realClock = true
 	absnfs.VerifClockOff()
 	dh, _ := w.handleFor("/d", rootCred())
 	var progress [8]int64
@@ -602,6 +607,7 @@ func completedWritesThenRead(r *Result, rng *rand.Rand, rounds int) {
 	w := newWorldOn(fs, SrvCfg{AttrTTL: time.Nanosecond})
 	defer w.Close()
 	w.noTrace = true
+	w.realClock = true
 	absnfs.VerifClockOff()
 	dh, _ := w.handleFor("/d", rootCred())
 	short, first := 0, ""
@@ -686,6 +692,7 @@ func sameNameStorm(r *Result, rounds int) {
 	w := newWorldOn(fs, SrvCfg{AttrTTL: 5 * time.Second})
 	defer w.Close()
 	w.noTrace = true
+	w.realClock = true
 	absnfs.VerifClockOff()
 	absnfs.VerifSetMaxHandles(w.srv.NFS, 10*rounds+100)
 	dh, _ := w.handleFor("/d", rootCred())
